@@ -276,7 +276,9 @@ pub fn poses(ctx: &Ctx) {
     c.meta.pose = Some(poses[k].clone());
     let mut img = image(kind, false, 9, 4);
     img.pose = Some(poses[(k + 9) % poses.len()].clone());
-    let p = Program { guid: "g".into(), ops: vec![Op::Cloud(c), Op::Image(img)], ..Default::default() };
+    // the two representations of an image can be added in either order
+    let projection_first = ctx.pick("projection-added-first", 2) == 1;
+    let p = Program { guid: "g".into(), ops: vec![Op::Cloud(c), Op::Image(img)], projection_first, ..Default::default() };
     if judge(ctx, &p) {
         ctx.nontrivial();
     }
